@@ -70,7 +70,7 @@ func vGenOps(n int) []VSpecOp {
 
 func vGenLen() int {
 	if vThorough() {
-		return 5
+		return 4
 	}
 	return 3
 }
@@ -91,9 +91,6 @@ func VH_GEN_lzma() {
 	vAssert(rok && bytes.Equal(ref, content), "reference decoder reads the reference encoder")
 	// the window is max(header, 4096, config): the result must not depend on the configured capacity
 	dictCap := []int{0, 4096, 1 << 16}[(n+mode)%3]
-	if vThorough() {
-		dictCap = []int{0, 4096, 1 << 16}[vConcretize(int(vNondetU8("dictCap"))%3)]
-	}
 	r, err := ReaderConfig{DictCap: dictCap}.NewReader(&vSrc{data: z, end: len(z)})
 	vAssert(err == nil, "valid .lzma stream opens")
 	out, err := vReadAll(r, 300)
@@ -104,10 +101,7 @@ func VH_GEN_lzma() {
 // LZMA2: chunk sequences over all 7 kinds; the library must accept exactly
 // the legal ones and decode them to the right bytes.
 func VH_GEN_lzma2() {
-	nchunks := 3
-	if vThorough() {
-		nchunks = 4
-	}
+	nchunks := 3 // thorough keeps 3 chunks and lengthens the chunk payloads instead (21^4 sequences are out of reach)
 	var chunks []VSpecLZMA2Chunk
 	needDict, needProps := true, true
 	legal := true
@@ -157,8 +151,8 @@ func VH_GEN_lzma2() {
 			case 2:
 				ks = []int{1, 3, 6}
 			}
-			if hl > 0 && vThorough() && vNondetBool("far") {
-				ks = append(ks, 4, 7)
+			if hl > 0 && vThorough() {
+				ks = append(ks, 4, 7) // thorough: also the oldest byte of the window and a long rep1
 			}
 			for _, k := range ks {
 				op := vOpMenu(k, hl)
